@@ -297,6 +297,27 @@ class Evaluator:
         v = self._truth(st, t)
         if v is not None:
             return [(st, v)]
+        # any(P(x) for x in (a, b)) over a short literal tuple is P(a) or P(b) (all: and), decided in turn
+        if self.split_bool and t[0] == "call" and t[1] in (("name", "any"), ("name", "all")) and len(t[2]) == 1 and not t[3] and t[2][0][0] == "comp":
+            comp = t[2][0]
+            if len(comp[3]) == 1 and not comp[3][0][2] and len(comp[3][0][0]) == 1 and comp[3][0][1][0] in ("tuple", "list") and 1 <= len(comp[3][0][1][1]) <= 4:
+                bnd = ("bound", comp[3][0][0][0])
+                parts = [substitute(comp[2], {bnd: item}) for item in comp[3][0][1][1]]
+                is_all = t[1][1] == "all"
+                results: List[Tuple[_State, bool]] = []
+                pending = [st]
+                for part in parts:
+                    nxt: List[_State] = []
+                    for s in pending:
+                        for s2, b in self._decide(s, part, node):
+                            if is_all:
+                                (nxt if b else results).append(s2 if b else (s2, False))  # type: ignore[arg-type]
+                            else:
+                                (results if b else nxt).append((s2, True) if b else s2)  # type: ignore[arg-type]
+                    pending = nxt
+                for s in pending:
+                    results.append((s, is_all))
+                return results
         c, pol = canon_pred(t)
         other = st.clone()
         self._count_state()
@@ -332,9 +353,48 @@ class Evaluator:
             return results
         if self.split_bool and isinstance(node, ast.UnaryOp) and isinstance(node.op, ast.Not):
             return [(s, not b) for s, b in self._decide_test(st, node.operand)]
+        if self.split_bool:
+            spread = self._spread_quantifier(node)
+            if spread is not None:
+                return self._decide_test(st, spread)
         out: List[Tuple[_State, bool]] = []
         for s, t in self._eval(st, node):
             out.extend(self._decide(s, t, node))
+        return out
+
+    @staticmethod
+    def _spread_quantifier(node: ast.AST) -> Optional[ast.AST]:
+        """any(P(x) for x in (a, b)) == P(a) or P(b);  all(...) == P(a) and P(b)  (short literal sequence,
+        single plain target, no filter): the same test written as a Boolean expression"""
+        if not (isinstance(node, ast.Call) and isinstance(node.func, ast.Name) and node.func.id in ("any", "all") and len(node.args) == 1 and not node.keywords):
+            return None
+        g = node.args[0]
+        if not isinstance(g, (ast.GeneratorExp, ast.ListComp)) or len(g.generators) != 1:
+            return None
+        gen = g.generators[0]
+        if gen.ifs or not isinstance(gen.target, ast.Name) or not isinstance(gen.iter, (ast.Tuple, ast.List)) or not (1 <= len(gen.iter.elts) <= 4):
+            return None
+        if any(isinstance(x, ast.Starred) for x in gen.iter.elts):
+            return None
+        name = gen.target.id
+
+        class Sub(ast.NodeTransformer):
+            def __init__(self, repl: ast.AST) -> None:
+                self.repl = repl
+
+            def visit_Name(self, n: ast.Name) -> ast.AST:
+                if n.id == name and isinstance(n.ctx, ast.Load):
+                    return copy.deepcopy(self.repl)
+                return n
+
+        import copy
+
+        vals = []
+        for el in gen.iter.elts:
+            vals.append(Sub(el).visit(copy.deepcopy(g.elt)))
+        out = ast.BoolOp(op=ast.Or() if node.func.id == "any" else ast.And(), values=vals) if len(vals) > 1 else vals[0]
+        ast.copy_location(out, node)
+        ast.fix_missing_locations(out)
         return out
 
     # ------------------------------------------------------------------ statements
@@ -890,6 +950,15 @@ class Evaluator:
             out = []
             for s, b in self._eval(st, e.value):
                 for s2, i in self._eval(s, e.slice):
+                    # indexing / slicing a tuple whose items are known yields those items
+                    if b[0] == "tuple" and not any(x[0] in ("star",) for x in b[1]):
+                        if i[0] == "const" and isinstance(i[1], int) and not isinstance(i[1], bool) and -len(b[1]) <= i[1] < len(b[1]):
+                            out.append((s2, b[1][i[1]]))
+                            continue
+                        if i[0] == "slice" and all(x is None or (x[0] == "const" and isinstance(x[1], int)) for x in i[1:4]):
+                            lo, hi, stp = [None if x is None else x[1] for x in i[1:4]]
+                            out.append((s2, ("tuple", tuple(b[1][slice(lo, hi, stp)]))))
+                            continue
                     out.append((s2, self._read(s2, b, i, e)))
             return out
         if isinstance(e, ast.Slice):
@@ -1228,10 +1297,12 @@ class Evaluator:
 
     def _apply(self, st: _State, e: ast.Call, fterm: Term, recv: Optional[Term], args: List[Term], kws: List[Tuple[str, Term]]) -> List[Tuple[_State, Term]]:
         # calling a lambda term: substitute its parameters
-        if fterm[0] == "lambda" and len(fterm[1]) == len(args) and not kws:
+        if fterm[0] == "lambda" and all(k in fterm[1][len(args):] for k, _ in kws) and len(args) + len(kws) == len(fterm[1]) and len({k for k, _ in kws}) == len(kws):
             from .terms import substitute
 
-            return [(st, substitute(fterm[2], {("bound", p_): a for p_, a in zip(fterm[1], args)}))]
+            binding = {("bound", p_): a for p_, a in zip(fterm[1], args)}
+            binding.update({("bound", k): v for k, v in kws})
+            return [(st, substitute(fterm[2], binding))]
         # getattr(obj, 'name')(...) is a method call
         if fterm[0] == "call" and fterm[1] == ("name", "getattr") and len(fterm[2]) == 2 and fterm[2][1][0] == "const" and isinstance(fterm[2][1][1], str):
             recv = fterm[2][0]
